@@ -1,0 +1,65 @@
+//! Verification hooks (compiled only with `--cfg sv_parser_verif`).
+//!
+//! A thread-local event buffer that is off unless a harness turns it on, a setter that
+//! re-creates the thread's packrat memo table with a chosen capacity, and a view of the
+//! thread-local parser state.  Nothing here is reachable in a normal build.
+
+use std::cell::{Cell, RefCell};
+
+#[derive(Clone, Debug)]
+pub struct Event {
+    pub seq: u64,
+    pub kind: &'static str,
+    pub nums: Vec<i64>,
+    pub strs: Vec<String>,
+}
+
+thread_local!(
+    static ENABLED: Cell<bool> = Cell::new(false);
+    static SEQ: Cell<u64> = Cell::new(0);
+    static LOG: RefCell<Vec<Event>> = RefCell::new(Vec::new());
+);
+
+pub fn enable(on: bool) {
+    ENABLED.with(|x| x.set(on));
+}
+
+pub fn enabled() -> bool {
+    ENABLED.with(|x| x.get())
+}
+
+pub fn emit(kind: &'static str, nums: &[i64], strs: &[&str]) {
+    if !enabled() {
+        return;
+    }
+    let seq = SEQ.with(|x| {
+        let n = x.get() + 1;
+        x.set(n);
+        n
+    });
+    LOG.with(|x| {
+        x.borrow_mut().push(Event {
+            seq,
+            kind,
+            nums: nums.to_vec(),
+            strs: strs.iter().map(|s| s.to_string()).collect(),
+        })
+    });
+}
+
+pub fn drain() -> Vec<Event> {
+    LOG.with(|x| std::mem::take(&mut *x.borrow_mut()))
+}
+
+/// Replace this thread's memo table by an empty one with the given capacity
+/// (`None` = unbounded).  Capacity 0 is not representable in nom-packrat.
+pub fn set_memo_capacity(cap: Option<usize>) {
+    crate::PACKRAT_STORAGE.with(|s| {
+        *s.borrow_mut() = nom_packrat::PackratStorage::new(cap);
+    });
+}
+
+/// (depth of the in-directive stack, names of the keyword-version stack bottom to top)
+pub fn thread_state() -> (usize, Vec<String>) {
+    (crate::utils::verif_directive_depth(), crate::utils::verif_version_stack())
+}
